@@ -421,7 +421,12 @@ func runCheck(args []string) int {
 
 	// ---- verdict ----
 	exit := 0
-	os.MkdirAll(filepath.Join(verifDir, "evidence", "replays"), 0o755)
+	evDir := filepath.Join(verifDir, "evidence")
+	evRel := "evidence"
+	if d := os.Getenv("VERIF_EVIDENCE_DIR"); d != "" { // scratch runs against mutated trees must not touch committed evidence
+		evDir, evRel = d, d
+	}
+	os.MkdirAll(filepath.Join(evDir, "replays"), 0o755)
 	nviol := 0
 	var inconAll []string
 	inconAll = append(inconAll, extraIncon...)
@@ -448,10 +453,10 @@ func runCheck(args []string) int {
 				continue
 			}
 			nviol++
-			file := filepath.Join("evidence", "replays", fmt.Sprintf("%s-%d.json", cc.Property, nviol))
+			file := filepath.Join(evRel, "replays", fmt.Sprintf("%s-%d.json", cc.Property, nviol))
 			v.File = file
 			rb, _ := json.MarshalIndent(map[string]interface{}{"property": cc.Property, "harness": r.Name, "pkg": r.Pkg, "label": v.Label, "kind": v.Kind, "msg": v.Msg, "vals": v.Vals, "native_replay": v.ReplayOut}, "", " ")
-			os.WriteFile(filepath.Join(verifDir, file), rb, 0o644)
+			os.WriteFile(filepath.Join(evDir, "replays", filepath.Base(file)), rb, 0o644)
 			fmt.Printf("VIOLATION property=%s replay=%s harness=%s label=%q %s\n", cc.Property, file, r.Name, v.Label, v.Msg)
 			exit = 1
 		}
@@ -597,8 +602,12 @@ func writeEvidence(cc *CheckCfg, o *opts, seed int, results []*HarnessResult, wa
 		"violations":  nviol,
 	}
 	b, _ := json.MarshalIndent(ev, "", " ")
-	os.MkdirAll(filepath.Join(verifDir, "evidence"), 0o755)
-	os.WriteFile(filepath.Join(verifDir, "evidence", cc.Property+".json"), b, 0o644)
+	evDir := filepath.Join(verifDir, "evidence")
+	if d := os.Getenv("VERIF_EVIDENCE_DIR"); d != "" {
+		evDir = d
+	}
+	os.MkdirAll(evDir, 0o755)
+	os.WriteFile(filepath.Join(evDir, cc.Property+".json"), b, 0o644)
 }
 
 func runReplayOnly(cc *CheckCfg, o *opts, workDir string) int {
